@@ -1,11 +1,92 @@
 import StorageModel.Driver.Common
+import StorageModel.Query.Wire
 /- model driver for C02: `run spec` reads case lines on stdin and prints one output line per case
    (spec = false: the engine model's output; spec = true: the spec's verdict). -/
 namespace StorageModel.Driver.C02
-open StorageModel.Driver
+open StorageModel StorageModel.Driver StorageModel.Query StorageModel.Query.Wire
 
-def step (_line : String) : String := "not-implemented"
-def specStep (_line : String) : String := "not-implemented"
+def errLine (c : Case) : String :=
+  "ids=err|idsc=err|cur=err|prov=" ++ (if c.prov.isNone then "-" else "err") ++ "|iter=err|seek=" ++
+    (if c.seek.isNone then "-" else "err")
+
+def beforeKey (v : Bytes) (r : Row) : Bool := cmpBytes r.id v == .lt
+
+/-- the engine model, API by API -/
+def modelLine (c : Case) : String :=
+  let pf := Generated.boltzPaging
+  match parsePaging c.skip c.limit with
+  | .error _ => errLine c
+  | .ok paging =>
+    if !sortParses wireSchema c.sort then errLine c else
+    let st := c.bolt
+    let q : Query := ⟨c.filter, c.sort, paging⟩
+    let ids := renderExcept (queryIdsC pf st q)
+    -- the query object after the first QueryIdsC: untouched when Scan returned early (no bucket)
+    let paging1 := if st.bucket.isNone then paging else (setPaging pf paging).1
+    let r2 := renderExcept (queryIdsC pf st { q with paging := paging1 })
+    let paging2 := if st.bucket.isNone then paging1 else (setPaging pf paging1).1
+    let idsc := ids ++ "/" ++ r2 ++ "/" ++ renderOpt paging2.skip ++ ":" ++ renderOpt paging2.limit
+    let cur := match st.bucket with
+      | none => "nobucket"
+      | some rows => renderExcept (queryWithCursorC pf st q fun fwd => some (bucketCursor rows fwd))
+    let prov := match c.prov with
+      | none => "-"
+      | some p =>
+        let sub := (st.bucket.getD []).filter fun (r : Row) => c.inProv p r.id
+        renderExcept (queryWithCursorC pf st q fun fwd => some (bucketCursor sub fwd))
+    let iter := renderIds (iterateIds pf st q)
+    let seek := match c.seek with
+      | none => "-"
+      | some v =>
+        match st.bucket with
+        | none => ""
+        | some rows =>
+          let env := st.env c.filter
+          let (tg, cur0) := openPaged pf env none rows
+          renderIds (drain tg env (rows.length + 1) (cur0.seek tg env (beforeKey v)))
+    s!"ids={ids}|idsc={idsc}|cur={cur}|prov={prov}|iter={iter}|seek={seek}"
+
+/-- the specification: sort the satisfying rows, drop, take; count them -/
+def specLine (c : Case) : String :=
+  match parsePaging c.skip c.limit with
+  | .error _ => errLine c
+  | .ok paging =>
+    if !sortParses wireSchema c.sort then errLine c else
+    match newRowComparator wireSchema c.sort, newRowComparator wireSchema [] with
+    | .ok cmp, .ok byId =>
+      let rows := (c.rows.getD []).map (·.row)
+      -- the entities of the queried store that satisfy the filter
+      let m := rows.filter fun r => !c.childSkip r && sat r c.filter
+      let skip := specSkip c.skip
+      let limit := specLimit c.limit
+      let ans (xs : List Row) := renderIds (page cmp skip limit xs) ++ "#" ++ toString (total xs)
+      let ids := ans m
+      let state := if c.rows.isNone then renderOpt paging.skip ++ ":" ++ renderOpt paging.limit
+        else toString (skip.getD 0) ++ ":" ++ (match limitRows limit with | none => toString maxI64 | some n => toString n)
+      let cur := if c.rows.isNone then "nobucket" else ids
+      let prov := match c.prov with
+        | none => "-"
+        | some p => ans (m.filter fun r => c.inProv p r.id)
+      let iter := renderIds (page byId skip limit m)
+      let seek := match c.seek with
+        | none => "-"
+        | some v => renderIds (m.filter fun r => !beforeKey v r)
+      s!"ids={ids}|idsc={ids}/{ids}/{state}|cur={cur}|prov={prov}|iter={iter}|seek={seek}"
+    | _, _ => "spec-error"
+
+def step (line : String) : String :=
+  match splitSp line with
+  | "q" :: rest => match parseCase rest with
+    | some c => modelLine c
+    | none => "bad-case"
+  | _ => "bad-case"
+
+def specStep (line : String) : String :=
+  match splitSp line with
+  | "q" :: rest => match parseCase rest with
+    | some c => specLine c
+    | none => "bad-case"
+  | _ => "bad-case"
 
 def run (spec : Bool) : IO Unit := forEachLine (if spec then specStep else step)
 
